@@ -1862,8 +1862,8 @@ def run(ctx):
                    classify=classify_sub, canon=canon)
     ctx.correspond("gpos-apply-device", lines=subd_lines(ctx.rng("subd"), ctx.budget(4000, 150000)),
                    classify=classify_subd, canon=canon)
-    ctx.correspond("kern-machine", lines=mk_lines(ctx.rng("mk"), ctx.budget(4000, 400000)),
-                   classify=classify_mk, canon=canon)
+    mk_dis = ctx.correspond("kern-machine", lines=mk_lines(ctx.rng("mk"), ctx.budget(4000, 400000)),
+                            classify=classify_mk, canon=canon)
     ctx.correspond("kern-fmt0", lines=f0_lines(ctx.rng("f0"), ctx.budget(2000, 100000)), canon=canon)
     ctx.correspond("kern-driver", lines=drv_lines(ctx.rng("drv"), ctx.budget(3000, 300000), plans),
                    classify=classify_drv, canon=canon)
@@ -1876,8 +1876,10 @@ def run(ctx):
     import _gposflag as GFc
     pcc = int(vlib.run_lines(shim, ["bufconst"], nproc=1)[0].split()[0])
     rk = ctx.rng("pair-span")
-    ctx.correspond("kern-machine-flags", lines=PF.mk_lines(rk, ctx.budget(3000, 100000), pcc), classify=PF.classify_k, canon=GFc.canon)
-    ctx.correspond("kerx-simple-flags", lines=PF.kx_lines(rk, ctx.budget(2000, 60000), pcc, kplans), classify=PF.classify_k, canon=GFc.canon)
+    mk_dis = mk_dis + ctx.correspond("kern-machine-flags", lines=PF.mk_lines(rk, ctx.budget(3000, 100000), pcc),
+                                     classify=PF.classify_k, canon=GFc.canon)
+    mk_dis = mk_dis + ctx.correspond("kerx-simple-flags", lines=PF.kx_lines(rk, ctx.budget(2000, 60000), pcc, kplans),
+                                     classify=PF.classify_k, canon=GFc.canon)
     ctx.correspond("gpos-lookup", groups=pos_groups(shim, ctx.rng("pos"), ctx.budget(150, 6000), ctx.budget(12, 16)),
                    classify=classify_pos, canon=canon, only=lambda ln: ln.startswith("gp pos"))
     corpus_seeds(ctx, shim)
@@ -1886,6 +1888,11 @@ def run(ctx):
     device_value_search(ctx, shim, ctx.rng("devval"), ctx.budget(3000, 200000))
     kerx_value_search(ctx, shim, ctx.rng("kxval"), ctx.budget(300, 20000))
     kernx_search(ctx, shim, ctx.rng("kernx"), ctx.budget(250, 8000), ctx.budget(10, 12))
+    # pairs across skipped glyphs (marks, default ignorables) on fonts whose pair tables cover every glyph; disagreeing
+    # kern-machine requests are handed to the same oracle through shape()
+    import _kernskip as KS
+    KS.search(ctx, shim, ctx.rng("kernskip"), ctx.budget(300, 8000), ctx.budget(10, 12))
+    KS.promote(ctx, shim, mk_dis, ctx.budget(60, 400))
     mark_chain_search(ctx, shim, ctx.rng("markchain"), ctx.budget(3000, 200000))
     attach_search(ctx, shim, ctx.rng("attach"), ctx.budget(150, 10000), ctx.budget(8, 12))
     target_search(ctx, shim, ctx.rng("target"), ctx.budget(240, 12000), ctx.budget(10, 12))
@@ -1928,6 +1935,9 @@ def replay(ctx, rp):
         bad = [w for w, _, _ in run_seed(shim, json.load(open(rp["seed_file"]))) if w]
         for w in bad: print(w)
         return 1 if bad else 0
+    if stream in ("kern-skip-shape", "promoted-kern-machine") and "sem" in rp:
+        import _kernskip as KS
+        return KS.replay(rp, shim)
     if stream == "kernx-shape" and "sem" in rp:
         o = vlib.run_groups(shim, [[rp["font_line"], rp["plain_font_line"], rp["request"], rp["plain_request"]]], nproc=1)[0]
         sem = dict(rp["sem"])
